@@ -327,7 +327,9 @@ pub fn c12_cases(rng: &mut Rng, tier: &str) -> (Vec<Case>, bool) {
         });
     }
     // exhaustive single-blank insertion / deletion / case flip for short lines
-    let short_lines = ["IF X THEN Y", "FORI=1TO10STEP2", "PRINT\"A B\";A B", "GO TO 10:REM x y", "A$=\"x\"+B$", "DATA 1, 2 :PRINT A", "X=1<=2<>3", "NEXTI:RETURN", "? 1 . 5", "ATOM=SCORE"];
+    let short_lines = ["IF X THEN Y", "FORI=1TO10STEP2", "PRINT\"A B\";A B", "GO TO 10:REM x y", "A$=\"x\"+B$", "DATA 1, 2 :PRINT A", "X=1<=2<>3", "NEXTI:RETURN", "? 1 . 5", "ATOM=SCORE",
+        // an identifier spelled exactly like text that occurs earlier on the line inside a literal / DATA item
+        "?\"n\";:n=5:?N", "?\"Count\":Count=1", "DATA k:k=7", "a$=\"a\":a=1"];
     for line in short_lines {
         let (insert_ok, touch_ok) = protected_map(line);
         let bytes = line.as_bytes();
@@ -356,6 +358,39 @@ pub fn c12_cases(rng: &mut Rng, tier: &str) -> (Vec<Case>, bool) {
             }
         }
         cases.push(Case { ops, checks, tag: "exhaustive-short-line".into(), nontrivial: true, show: format!("{:?} (all single edits)", line) });
+    }
+    // whole sessions: the same program typed in two spellings (case / blanks outside literals) prints the same; text inside
+    // literals of EARLIER lines coincides with identifiers of later lines
+    let pairs: &[(&[&str], &[&str])] = &[
+        (&["10 PRINT \"Count\"", "20 Count = 5", "30 PRINT COUNT"], &["10 print \"Count\"", "20 COUNT = 5", "30 print count"]),
+        (&["10 DATA k, n", "20 k = 7 : n = 8", "30 PRINT K; N"], &["10 data k, n", "20 K = 7 : N = 8", "30 PRINT k; n"]),
+        (&["10 A$ = \"total\"", "20 total = 3 : PRINT TOTAL; A$"], &["10 a$ = \"total\"", "20 TOTAL = 3 : print total; A$"]),
+        (&["10 REM x", "20 x = 2 : PRINT X"], &["10 rem x", "20 X = 2 : PRINT x"]),
+        (&["10 INPUT n$", "20 hello = 4 : PRINT HELLO; N$"], &["10 input N$", "20 HELLO = 4 : print hello; n$"]),
+    ];
+    for (a, b) in pairs {
+        let mut w = crate::prog::Walk::new(false, false);
+        let mut takes = vec![];
+        for (k, prog) in [a, b].iter().enumerate() {
+            if k == 1 {
+                w.op("new 0 0");
+            }
+            for l in prog.iter() {
+                w.start(l);
+            }
+            w.start("RUN");
+            let mut nr = 0;
+            w.drive(&["hello".to_string()], &mut nr, 40, false);
+            w.op("take");
+            w.start("LIST");
+            w.op("take");
+            takes.push(w.last());
+        }
+        let t0 = w.ops.len();
+        let _ = t0;
+        // compare everything printed by the two runs (collected transcripts) and the two listings
+        let split = w.ops.iter().rposition(|o| o == "new 0 0").unwrap();
+        cases.push(Case { ops: w.ops.clone(), checks: vec![format!("transcript-eq 0-{} {}-{}", split - 1, split, w.ops.len() - 1)], tag: "session-spelling".into(), nontrivial: true, show: format!("{:?} ~ {:?}", a, b) });
     }
     // DATA blanks
     let nd = if tier == "thorough" { 20_000 } else { 1_500 };
